@@ -118,13 +118,13 @@ DED.update({
          "axes), __neighboringcells, __cellsCrossSegment (for an arbitrary point of the segment the cell containing it is returned: "
          "nested-loop invariant + real-arithmetic completeness, upper border included), __addSegment (inventory invariant, cells only "
          "grow), addFeature (every point of every segment of the track has the feature registered in its cell; the affine map to grid "
-         "units commutes with interpolation), request (cell / point), request(track): every datum registered in the cell of any point of any "
-         "segment of the query track is returned (the helper __addCellValuesInTAB, which appends to its caller's list, is inlined with "
+         "units commutes with interpolation), request (cell / point), request([c1, c2]) and request(track): every datum registered in the "
+         "cell of any point of the query segment / of any segment of the query track is returned (the helper __addCellValuesInTAB, which appends to its caller's list, is inlined with "
          "the final list written back - Python aliasing), neighborhood (cell / point, unit given): every datum of every cell "
          "within `unit` cells is returned; lemma ground-distance-to-cells: a point within ground distance d falls within u cells when u "
          "cells cover d along both axes.",
-         "index construction from a collection / network, request([c1, c2]) and neighborhood on segments and tracks, the unit = -1 "
-         "incremental search: bounded only."),
+         "index construction from a collection / network, neighborhood on segments and tracks, the unit = -1 incremental search: "
+         "bounded only."),
  "C14": ("GeoCoords.toECEFCoords equals the closed-form WGS84 formulas (prime-vertical radius, e^2 = f(2 - f)); ECEFCoords.toENUCoords and "
          "ENUCoords.toECEFCoords are the stated rotations; three proof harnesses sequencing the REAL methods show ENU -> ECEF -> ENU and ECEF "
          "-> ENU -> ECEF are the identity for any base and that the base maps to (0, 0, 0) (sin^2 + cos^2 = 1; both directions take their "
